@@ -104,6 +104,13 @@ def run(ctx):
     wu = [(bi, st) for bi, st, pl, fs in ss.field_writes() if fs and fs[-1][0] == 'server_uid']
     oku = any(ss.term[uid[0]]['d'][0] in ss.derived_from(_stored_local(ss, st)) for bi, st in wu)
     ctx.ob('R11.4', 'start_server|server_uid kept', oku, 'server_cfg.server_uid := restored uid (when not empty)', ss.loc(uid[0]))
+    # the restored uid overrides the configured one: the write is guarded by !is_empty() only
+    for bi, st in wu:
+        e_none, cn = guard_edges(ss, 'core::option::Option::is_none', True)
+        e_some, cs_ = guard_edges(ss, 'core::option::Option::is_some', False)
+        guarded = any(dominated_by_edges(ss, bi, {e}, False) for e in (e_none | e_some))
+        ctx.ob('R11.4', 'start_server|restored uid wins over configuration', not guarded,
+               'the journal uid replaces server_cfg.server_uid unconditionally (apart from the empty-uid test); keeping a configured uid changes the server identity of an existing journal', ss.loc(bi, st))
     isv = coroutine_of(prog, BOOT + 'initialize_server')
     st_ = isv.call_blocks('tako::internal::server::start::server_start') or isv.call_blocks(lambda c: c.endswith('::server_start'))
     ctx.require(st_, 'R11.4: server_start call')
